@@ -200,6 +200,53 @@ pub fn strategy(wt: u64, tier: Tier) -> impl Strategy<Value = Case> {
         .prop_map(|(prog, chunks, other_prefix)| Case { prog, chunks, other_prefix })
 }
 
+/// One slice of more than 2^32 bytes in a single call (the hashes keep 32-bit counters; positions, lengths
+/// and indices beyond 4 GiB must not matter): zero bytes, with live bytes at the start, around byte 2^32 and at
+/// the end. The zero run of the reference FNV is computed in closed form.
+#[derive(Debug, Clone, Serialize, Deserialize)]
+pub struct HugeCase {
+    pub over: u32,
+    pub seed: u64,
+    /// 0 update(&[u8]), 1 += &[u8]
+    pub form: u8,
+}
+
+pub fn eval_huge(c: &HugeCase, st: &mut Stats) -> Result<(), String> {
+    let border = 1usize << 32;
+    let n = border + c.over as usize;
+    let mut v = vec![0u8; n];
+    let mut r = oracle::words::SplitMix(c.seed);
+    r.fill(&mut v[..32]);
+    r.fill(&mut v[border - 64..]);
+    let segs = [oracle::gen::Seg::Bytes(&v[..32]), oracle::gen::Seg::Zeros((border - 64 - 32) as u64), oracle::gen::Seg::Bytes(&v[border - 64..])];
+    let mut rh = RollingHash::new();
+    let mut fh = PartialFNVHash::new();
+    must("RollingHash / PartialFNVHash over one slice of more than 4 GiB", || {
+        if c.form % 2 == 0 {
+            rh.update(&v);
+            fh.update(&v);
+        } else {
+            rh += &v[..];
+            fh += &v[..];
+        }
+    })?;
+    ensure_eq!(rh.value(), oracle::gen::roll_of(&v[n - 16..]), "RollingHash::value() after one slice of 2^32+{} bytes", c.over);
+    ensure_eq!(fh.value() as u32, oracle::gen::fnv32_segs(&segs) & 63, "PartialFNVHash::value() after one slice of 2^32+{} bytes", c.over);
+    // the state left behind must serve the following bytes as well
+    let mut tail = v[n - 16..].to_vec();
+    for k in 0..20u8 {
+        let b = k.wrapping_mul(37) ^ 0x5a;
+        tail.push(b);
+        must("update_by_byte", || {
+            rh.update_by_byte(b);
+        })?;
+        ensure_eq!(rh.value(), oracle::gen::roll_of(&tail), "RollingHash::value() {} bytes after a slice of 2^32+{} bytes", k + 1, c.over);
+    }
+    st.class("slice_beyond_4GiB");
+    st.nontrivial(oracle::fingerprint(format!("{:?}", c).as_bytes()));
+    Ok(())
+}
+
 pub fn subchecks(tier: Tier) -> Vec<SubCheck> {
     let wt_seed = move || -> u64 {
         std::env::var("VERIF_SEED").ok().and_then(|s| s.trim().parse::<i128>().ok()).map(|v| v as u64).unwrap_or(0) ^ 0xC19
@@ -212,6 +259,15 @@ pub fn subchecks(tier: Tier) -> Vec<SubCheck> {
             tier.pick(3_000_000, 30_000_000),
             move || strategy(wt_seed(), tier),
             eval,
+        ),
+        crate::engine::listed(
+            "slice_beyond_4gib",
+            "a single update / += call with a slice of 2^32 + k bytes (zero bytes with live bytes at the start, around byte 2^32 and at the end): rolling value vs the definition over the last seven bytes, also for 20 bytes fed afterwards; partial FNV vs FNV-1 with the zero run in closed form; non-trivial = all; distinct by case",
+            tier.pick(
+                vec![HugeCase { over: 48, seed: 1, form: 0 }],
+                vec![HugeCase { over: 48, seed: 1, form: 0 }, HugeCase { over: 5, seed: 2, form: 1 }, HugeCase { over: 4099, seed: 3, form: 0 }],
+            ),
+            eval_huge,
         ),
     ]
 }
